@@ -276,6 +276,7 @@ recurseTail:
 				}
 			}
 			obj = o[len(o)-1]
+			execProc = false // a procedure in tail position is a literal, too
 			goto recurseTail
 		} else {
 			intp.Stack = append(intp.Stack, o)
